@@ -981,7 +981,10 @@ func (s *Store[K, V]) processSecondary() {
 			return
 		case item = <-s.secondaryCacheBuf:
 		}
-		tk := item.shard.mu.RLock()
+		// the write lock is held from the check until the slot is removed, otherwise
+		// a Set could update the entry in place after its value was copied to the
+		// secondary cache and the new value would be dropped together with the slot
+		item.shard.mu.Lock()
 		// first double check this entry is still the one in map,
 		// if not the key was already deleted (and maybe set again) by API
 		current, exist := item.shard.get(item.entry.key)
@@ -990,24 +993,23 @@ func (s *Store[K, V]) processSecondary() {
 				item.entry.key, item.entry.value,
 				item.entry.weight.Load(), item.entry.expire.Load(),
 			)
-			item.shard.mu.RUnlock(tk)
+			// entry is already removed from policy, so it must be
+			// removed from map even if secondary cache set failed
+			var deleted bool
+			if item.reason == EVICTED {
+				deleted = item.shard.delete(item.entry)
+			}
+			item.shard.mu.Unlock()
 			if err != nil {
 				s.secondaryCache.HandleAsyncError(err)
 			}
-			// entry is already removed from policy, so it must be
-			// removed from map even if secondary cache set failed
-			if item.reason == EVICTED {
-				item.shard.mu.Lock()
-				deleted := item.shard.delete(item.entry)
-				item.shard.mu.Unlock()
-				if deleted {
-					s.policyMu.Lock()
-					s.postDelete(item.entry)
-					s.policyMu.Unlock()
-				}
+			if deleted {
+				s.policyMu.Lock()
+				s.postDelete(item.entry)
+				s.policyMu.Unlock()
 			}
 		} else {
-			item.shard.mu.RUnlock(tk)
+			item.shard.mu.Unlock()
 		}
 	}
 }
